@@ -166,7 +166,7 @@ HARNESSES = [
          cases=[dict(id=n, defines={"FN": k}, tier="quick")
                 for k, n in ((1, "open_dir"), (2, "read"), (3, "get_inode"), (4, "resolve_inum"))]),
     dict(name="resolve_path", file="resolve_path.c",
-         label="bounded(path <= 4 bytes, <= 2 entries per directory, names <= 3 bytes)",
+         label="bounded(path <= 3 bytes, <= 2 entries per directory, names <= 3 bytes)",
          timeout=170, malloc_fail=True, native=False,
          pre_instrument_flags=["--replace-calls", "sqfs_dir_reader_open_dir:stub_open_dir",
                                "--replace-calls", "sqfs_dir_reader_read:stub_dir_read",
@@ -174,6 +174,21 @@ HARNESSES = [
                                "--replace-calls", "sqfs_dir_reader_resolve_inum:stub_resolve_inum"],
          fp={"read_at": "stub_read_at", "destroy": "rp_destroy", "copy": "rp_copy",
              "key_compare": "dcache_key_compare"},
-         cases=[dict(id="plen%d" % n, defines={"PLEN": n}, unwind=n + 4,
-                     tier="quick" if n <= 3 else "thorough") for n in range(0, 5)]),
+         cases=[dict(id="plen%d" % n, defines={"PLEN": n}, unwind=n + 4, timeout=600,
+                     tier="quick" if n <= 2 else "thorough") for n in range(0, 4)]),
+    dict(name="dir_iter", file="dir_iter.c", label="proved", timeout=170, malloc_fail=True,
+         flags=_UF,
+         fp={"read_at": "stub_read_at", "do_block": "stub_do_block",
+             "destroy": ["di_obj_destroy", "it_destroy"], "copy": "di_obj_copy"},
+         cases=[dict(id=n, defines={"FN": k}, tier="quick", unwind=6)
+                for k, n in ((1, "next"), (2, "read_link"), (3, "dispatch"), (4, "create"))]),
+    dict(name="inode_misc", file="inode_misc.c", timeout=170, malloc_fail=True, flags=_UF,
+         label="bounded(dir index entries <= 2; name buffer 6 bytes)",
+         fp={"read_at": "stub_read_at", "do_block": "stub_do_block"},
+         cases=[dict(id="unpack_index", defines={"FN": 1, "NENT": 2}, tier="quick",
+                     unwindset=["sqfs_inode_unpack_dir_index_entry.0:5", "harness.0:4",
+                                "harness.1:4"]),
+                dict(id="entry_from_inode", defines={"FN": 2, "NLEN": 6}, tier="quick",
+                     unwindset=["harness.0:7", "harness.1:7", "strnlen.0:8", "strlen.0:8",
+                                "verif_nd_bytes.0:100"])]),
 ]
